@@ -103,7 +103,8 @@ CLAIMED["C06"] = {
             "afterwards no tag-only line touches a list/table line. On the implementation: every inserted construct intact on one "
             "line for widths 1..88 in both modes, adjacency/separation of tags, tag-delimited lists/tables stay lists/tables with blank "
             "lines and are a fixpoint.",
-    "note": "Placeholder restoration (str.replace loop) is modelled and tested, not proved. Known finding D-13 (separated tags merged).",
+    "note": "Placeholder restoration (str.replace loop) is modelled and tested, not proved. Known findings D-13 (separated tags merged), "
+            "D-60 (semantic mode cuts inside constructs), D-93 and D-97 (adjacent tags that are not kept on one line).",
     "design": "DESIGN.md §5 C06",
 }
 CLAIMED["C12"] = {
@@ -142,12 +143,14 @@ CLAIMED["C01"] = {
 CLAIMED["C02"] = {
     "text": "Coq theorems at the paragraph level, for every text, width (wrapping or not) and pair of columns: re-reading the wrapped lines gives "
             "the source's word sequence, the wrapped form is a function of the word sequence, hence wrapping the wrapped lines again "
-            "changes nothing (plain mode, whitespace splitter); unclosed frontmatter is a fixpoint of the whole formatter (C07). The "
+            "changes nothing (plain mode, whitespace splitter) - and in Markdown mode as well: with the escapes the first pass put at line heads "
+            "in place the second pass makes the same decisions (any idempotent escape that never shortens a word; markdown_escape_word is "
+            "proved to be one); unclosed frontmatter is a fixpoint of the whole formatter (C07). The "
             "document-level claim is decided by two-pass runs: the extracted pipeline model and the implementation are compared on the "
             "inputs of both passes, and format(format(x)) is compared byte for byte with format(x) over random option sets (all widths "
             "classes, both modes, typography, cleanups, three list spacings) and plaintext mode.",
     "note": "Marko's re-reading of the canonical spelling and the Markdown-aware splitter are exercised, not proved. 7 genuine defects "
-            "found by the two-pass runs were repaired in /repo; D-25, D-27, D-42, D-50, D-51, D-52 are listed findings.",
+            "found by the two-pass runs were repaired in /repo; D-25, D-27, D-42, D-50, D-51, D-52, D-83, D-96 are listed findings.",
     "design": "DESIGN.md §5 C02",
 }
 CLAIMED["C03"] = {
